@@ -818,11 +818,17 @@ def vendor_device_cases(draw):
         case["ops"] = draw(device_ops(nq, n_off, VENDOR_KEYS_PASQAL, tags=False))
         case["off_kind"] = draw(st.sampled_from(["named", "named", "line"]))
     else:
-        case["qkind"] = draw(st.sampled_from(["two_d", "three_d", "grid", "line"]))
-        pts = [(x, y) for x in range(4) for y in range(3)]
+        case["qkind"] = draw(st.sampled_from(["two_d", "three_d", "three_d", "three_d", "grid", "line"]))
+        if case["qkind"] == "three_d":
+            # genuinely 3-d registers: same / close (x, y) with different z, so planar and 3-d distance disagree
+            pts = [(x, y, z) for x in range(3) for y in range(2) for z in range(4)]
+        else:
+            pts = [(x, y, 0) for x in range(4) for y in range(3)]
         case["pts"] = [list(p) for p in list(draw(st.permutations(pts)))[: nq + n_off]]
-        case["radius"] = draw(st.sampled_from([0.0, 1.0, 1.5, 2.0, 2.5, 3.0, 1.42, 2.24]))
-        case["ops"] = draw(device_ops(nq, n_off, VENDOR_KEYS_PASQAL, tags=False))
+        case["radius"] = draw(st.sampled_from([0.0, 1.0, 1.0, 1.5, 2.0, 2.5, 3.0, 1.42, 1.74, 2.24]))
+        ops = draw(device_ops(nq, n_off, VENDOR_KEYS_PASQAL, tags=False, min_ops=4, max_ops=10))
+        ops += draw(device_ops(nq, 0, ["CZ", "CZ", "CZ_INV", "CZ_SQ"], tags=False, min_ops=2, max_ops=5))  # distance-limited gates
+        case["ops"] = [ops[i] for i in draw(st.permutations(list(range(len(ops)))))]
         case["off_kind"] = draw(st.sampled_from(["same", "same", "named"]))
     return case
 
